@@ -13,10 +13,12 @@ BEH_START = ['normal', 'normal', 'normal', 'spawnerr', 'earlyexit', 'exit1', 'lo
 
 
 def gen_start_scenario(rnd, drops=True):
-    two_apps = rnd.random() < 0.4
+    x = rnd.random()
+    n_apps = 1 if x < 0.5 else (2 if x < 0.8 else 3)
+    two_apps = n_apps > 1
     apps = []
-    names = iter(['p1', 'p2', 'p3', 'q1', 'q2', 'q3'])
-    for ai in range(2 if two_apps else 1):
+    names = iter(['p1', 'p2', 'p3', 'q1', 'q2', 'q3', 'r1', 'r2', 'r3'])
+    for ai in range(n_apps):
         procs = []
         for _ in range(2 if two_apps else 3):
             seq = rnd.choice([0, 1, 1, 2, 2, 3])
@@ -27,7 +29,9 @@ def gen_start_scenario(rnd, drops=True):
             procs.append({'name': next(names), 'seq': seq, 'wait_exit': we, 'required': rnd.random() < 0.5,
                           'target': rnd.choice(['n2', 'n2', 'n2', 'n1']), 'behaviour': beh,
                           'startsecs': rnd.choice([1, 1, 5])})
-        apps.append({'name': 'AB'[ai], 'seq': rnd.choice([0, 1, 1, 2]) if two_apps else rnd.choice([0, 1, 1]),
+            if rnd.random() < 0.25:
+                procs[-1]['strategy'] = rnd.choice(['ABORT', 'STOP', 'CONTINUE'])
+        apps.append({'name': 'ABC'[ai], 'seq': rnd.choice([0, 1, 1, 2]) if two_apps else rnd.choice([0, 1, 1]),
                      'strategy': rnd.choice(['ABORT', 'STOP', 'CONTINUE']), 'procs': procs})
     trig_kind = rnd.choice(['distribution', 'distribution', 'start_application', 'start_application',
                             'restart_sequence', 'restart_application'])
@@ -54,9 +58,20 @@ def gen_start_scenario(rnd, drops=True):
             sc['lose_at_req'] = rnd.choice(remote)
             sc['rounds'] = 22
     if trig_kind == 'distribution':
-        sc['pre_rounds'] = 7 + 18
+        sc['pre_rounds'] = 7 + 18 + (8 if n_apps == 3 else 0)
         sc['rounds'] = 4
+    decorate(rnd, sc)
     return sc
+
+
+def decorate(rnd, sc):
+    """Supervisors not started together (tick counters differ) / programs not configured on the driving instance."""
+    if rnd.random() < 0.15:
+        sc['skew'] = [rnd.choice(['n1', 'n2']), rnd.choice([6, 12])]
+    if rnd.random() < 0.15:
+        # a program only configured where it is meant to run
+        sc['absent'] = [[n, f'{a["name"]}:{p["name"]}'] for a in sc['apps'] for p in a['procs']
+                        for n in ('n1', 'n2', 'n3')[:sc.get('n', 2)] if n != p['target'] and rnd.random() < 0.6]
 
 
 def gen_stop_scenario(rnd):
@@ -98,6 +113,9 @@ def gen_stop_scenario(rnd):
         sc['lose'] = [rnd.choice(['n2', 'n3']), rnd.choice([0, 1, 2])]
     if kind in ('restart', 'shutdown') and rnd.random() < 0.15:
         sc['race_order'] = True
+    decorate(rnd, sc)
+    if 'skew' in sc and sc['skew'][0] == 'n2' and rnd.random() < 0.5:
+        sc['skew'][0] = 'n3'
     return sc
 
 
@@ -131,14 +149,15 @@ def judge(v, traces, scs, labels, terminal_labels, tag='seq'):
     allv = vlib.tlc_prints(r.stdout, 'V ') + vlib.tlc_prints(r.stdout, 'E ')
     want = set(labels) | set(terminal_labels)
     listed = {x['id']: x for x in vlib.known_for(v.pid)}
+    everything = {x['id'] for x in vlib.load_known().get('findings', [])}
     for f in allv:
         for kx in [x for x in f['f'] if x.startswith('KNOWN.')]:
             fid = kx[6:]
             if fid in listed:
                 v.known(fid, listed[fid]['what'])
+            elif fid in everything:
+                continue          # a finding listed for another property
             elif any(lab.startswith(v.pid) for lab in want):
-                if fid == 'F19' and v.pid != 'C09':
-                    continue
                 v.violation(f'signature {fid} matched but it is not a listed finding', {'scenario': scs[f['t']]})
         mine = sorted(x for x in f['f'] if x in want)
         if mine:
